@@ -4238,13 +4238,18 @@ impl QueryRouter {
     ) -> std::cmp::Ordering {
         use std::cmp::Ordering;
 
+        // A missing column (outer join row without partner) and a NULL value are the same
+        // thing for ordering purposes; treating them as different made the comparison
+        // answer `Greater` both ways round, which is not a total order (`sort_by` may panic).
+        let a = a.filter(|v| !matches!(v, Value::Null));
+        let b = b.filter(|v| !matches!(v, Value::Null));
         match (a, b) {
-            (None, None) | (Some(Value::Null), Some(Value::Null)) => Ordering::Equal,
-            (None | Some(Value::Null), _) => match nulls_order.unwrap_or(NullsOrder::Last) {
+            (None, None) => Ordering::Equal,
+            (None, Some(_)) => match nulls_order.unwrap_or(NullsOrder::Last) {
                 NullsOrder::First => Ordering::Less,
                 NullsOrder::Last => Ordering::Greater,
             },
-            (_, None | Some(Value::Null)) => match nulls_order.unwrap_or(NullsOrder::Last) {
+            (Some(_), None) => match nulls_order.unwrap_or(NullsOrder::Last) {
                 NullsOrder::First => Ordering::Greater,
                 NullsOrder::Last => Ordering::Less,
             },
